@@ -95,6 +95,28 @@ def oracle_glue(p):
     return out
 
 
+def oracle_funcscale(p):
+    """speriodogram(scale_by_freq=True) and FourierSpectrum(...).periodogram(): the unscaled estimate times 2*pi/df once"""
+    sp = C.sp()
+    x = np.asarray(p["x"])
+    nfft, fs = p["nfft"], p["fs"]
+    out = []
+    a0 = np.asarray(sp.speriodogram(x, NFFT=nfft, detrend=False, scale_by_freq=False, sampling=fs, window="hamming"))
+    a1 = np.asarray(sp.speriodogram(x, NFFT=nfft, detrend=False, scale_by_freq=True, sampling=fs, window="hamming"))
+    fac = C.TWO_PI / (fs / nfft)
+    if a0.shape != a1.shape or rel(a1, a0 * fac) > 1e-10:
+        out.append("speriodogram(scale_by_freq=True, N=%d, NFFT=%d, sampling=%g) is not the unscaled periodogram times 2*pi/df "
+                   "(observed/expected factor %.6f)" % (len(x), nfft, fs, float(np.median(a1 / a0)) / fac if a0.shape == a1.shape else float("nan")))
+    f0 = sp.FourierSpectrum(x, sampling=fs, NFFT=nfft, window="hamming", scale_by_freq=False)
+    f0.periodogram()
+    f1 = sp.FourierSpectrum(x, sampling=fs, NFFT=nfft, window="hamming", scale_by_freq=True)
+    f1.periodogram()
+    b0, b1 = np.asarray(f0.psd), np.asarray(f1.psd)
+    if b0.shape != b1.shape or rel(b1, b0 * fac) > 1e-10:
+        out.append("FourierSpectrum.periodogram() with scale_by_freq=True is not the unscaled estimate times 2*pi/df (N=%d NFFT=%d)" % (len(x), nfft))
+    return out
+
+
 def TWO_PI_over(df):
     return C.TWO_PI / df
 
@@ -108,6 +130,7 @@ def _key(p):
 
 
 KINDS = {
+    "funcscale": {"oracle": oracle_funcscale, "key": lambda p: "fs|%d|%d|%g" % (len(p["x"]), p["nfft"], p["fs"]), "tags": lambda p: ["funcscale"]},
     "arma2psd": {"impl": impl_a2p, "model": model_a2p, "oracle": oracle_a2p, "rtol": 1e-9, "atol": 1e-300, "key": _key,
                  "tags": lambda p: ["a2p:A-%s/B-%s" % ("None" if p["A"] is None else np.asarray(p["A"]).dtype.kind,
                                                       "None" if p["B"] is None else np.asarray(p["B"]).dtype.kind)]},
@@ -131,7 +154,7 @@ def gen(rng, nrng, tier):
         nfft = int(nrng.integers(max(pa, qa) + 1, 40))
         yield ("arma2psd", {"A": A, "B": B, "rho": float(nrng.uniform(0.1, 3)), "T": float(10 ** nrng.uniform(-2, 2)), "nfft": nfft})
     # long FFTs, the same NFFT requested repeatedly with shrinking / growing coefficient vectors (work buffers must not leak)
-    for nfft in ((1024, 1025) if tier == "quick" else (1024, 1025, 2048, 4096)):
+    for nfft in ((1024, 1025) if tier == "quick" else (1024, 1025, 2048)):
         for ln in (6, 3, 1, 4, 2, 5):
             A = nrng.standard_normal(ln) * 0.3
             B = nrng.standard_normal(max(1, 7 - ln)) * 0.3
@@ -143,6 +166,10 @@ def gen(rng, nrng, tier):
         A = (nrng.standard_normal(pa) * 0.4).astype(complex)
         B = (nrng.standard_normal(pa) * 0.4).astype(complex) if i % 2 else None
         yield ("arma2psd", {"A": A, "B": B, "rho": 1.0, "T": 1.0, "nfft": [31, 32, 45, 64, 49, 98][i % 6]})
+    for i in range(10 if tier == "quick" else 100):
+        cplx = bool(i % 2)
+        N = [30, 31, 64][i % 3]
+        yield ("funcscale", {"x": C.test_data(nrng, N, cplx), "nfft": [N, 2 * N, 2 * N + 1, N + 7][i % 4], "fs": float(10 ** nrng.uniform(-2, 5))})
     m = 84 if tier == "quick" else 1200
     for i in range(m):
         cls = C.CLASSES[i % len(C.CLASSES)]
